@@ -98,6 +98,12 @@ class RefRT(object):
     def ev_yield(self, fr, k, leaves):
         pass
 
+    def snapshot(self, obj):
+        return None
+
+    def check_unchanged(self, fr, k, obj, snap):
+        pass
+
     def ev_resume(self, fr, k, leaves, got):
         self.steps[fr.path] = self.steps.get(fr.path, 0) + 1
         self.yields[(fr.path, k)] = ("val",)
